@@ -121,10 +121,10 @@ func runConv(c ConvCase) (ev.Info, error) {
 		case "exit1":
 			do = vh.Behaviour{Exit: 1, ConvertTo: full(r.To)}
 		case "failed-message":
-			do = vh.Behaviour{Conversion: &vh.File{Content: fmt.Sprintf(`{"failedMessage":"cannot convert in %s"}`, bname)}}
+			do = vh.Behaviour{Conversion: &vh.File{Content: fmt.Sprintf(`{"failedMessage":"cannot convert 100%% of the objects in %s (%%d, %%s)"}`, bname)}}
 		case "failed-message-and-objects":
 			// a partial result: the hook reports a failure and still writes objects
-			do = vh.Behaviour{ConvertTo: full(r.To), ConvertFailMsg: fmt.Sprintf("cannot convert in %s", bname)}
+			do = vh.Behaviour{ConvertTo: full(r.To), ConvertFailMsg: fmt.Sprintf("cannot convert 100%% of the objects in %s (%%d, %%s)", bname)}
 		case "empty":
 			do = vh.Behaviour{}
 		case "drop":
@@ -286,7 +286,7 @@ func runConv(c ConvCase) (ev.Info, error) {
 			default:
 				failedAt = i
 				if iv.rule.Outcome == "failed-message" || iv.rule.Outcome == "failed-message-and-objects" {
-					failMsg = fmt.Sprintf("cannot convert in %s", iv.binding)
+					failMsg = fmt.Sprintf("cannot convert 100%% of the objects in %s (%%d, %%s)", iv.binding)
 				}
 			}
 		}
